@@ -6,7 +6,8 @@ import shrink
 import streams
 import tie
 
-RULE = ("model-free oracle status in {0,103} (no panic, no signal, finishes) on: every operator / binding form x every alias shape "
+RULE = ("[scale stream (lib_scale): about 30 constructs — names, literals, printed lines, keys with a multi-byte character at the boundary, statements, items, iterations, jumps followed by calls, nesting and recursion depth, trace depth — each at 24, 25, 40, 41, … 4096 (… 65,536 thorough) units of size, with the output computed in Python] " 
+        "model-free oracle status in {0,103} (no panic, no signal, finishes) on: every operator / binding form x every alias shape "
         "(exhaustive product), extreme-integer grid x {+ - * / %} in plain and op-assign forms and as range bounds, indices and slice "
         "bounds (read and assignment), interpolated and plain literals over an alphabet with 2/3/4-byte characters, every byte-wise "
         "piece of strings with multi-byte characters x 24 consumers of strings (print, key, property name, slot, concatenation, "
@@ -151,6 +152,14 @@ def run(ctx, model_ok):
     sets.append(("pieces", piece_scripts()))
     sets.append(("typefns", typefn_scripts()))
     sets.append(("progs", progs.generate(ctx.rng, 40000 if thorough else 2500)))
+    # the same constructs at every SIZE on both sides of the powers of two and round numbers (names, literals, keys with a
+    # multi-byte character at the boundary, statements, items, iterations, jumps, nesting, recursion, trace depth)
+    import lib_scale
+
+    def scale_judge(c, r):
+        ok_, why_ = oracle_one(ctx, c[2], r)
+        return ok_, why_
+    lib_scale.run_stream(ctx, core, "the process died instead of completing or reporting a diagnostic", scale_judge)
     cyc = ["xs := [1]\nxs[0] = xs\nprint(xs)\n", "xs := [1]\nxs[0] = xs\nprint(xs == [xs])\n",
            "o := {\"k\": 1}\no.k = o\nprint(o)\n", "a := [1]\nb := [a]\na[0] = b\nprint(a)\n"]
     ctx.exclude("cyclic_values_generated_not_judged", len(cyc))
